@@ -245,6 +245,59 @@ func (multConstraint) Execute(param string, args ...string) bool {
 	return err == nil && n%k == 0
 }
 
+// isOddConstraint: the same predicate under a name with a capital letter (custom constraints are
+// looked up by name).
+type isOddConstraint struct{}
+
+func (isOddConstraint) Name() string { return "isOdd" }
+func (isOddConstraint) Execute(param string, args ...string) bool {
+	return oddConstraint{}.Execute(param, args...)
+}
+
+// inConstraint: the value is one of the arguments, letter for letter.
+type inConstraint struct{}
+
+func (inConstraint) Name() string { return "in" }
+func (inConstraint) Execute(param string, args ...string) bool {
+	for _, a := range args {
+		if a == param {
+			return true
+		}
+	}
+	return false
+}
+
+// refRegexUpper is the reference for regex(^[A-C]+$).
+func refRegexUpper(v string) tri {
+	if v == "" {
+		return vInvalid
+	}
+	for i := 0; i < len(v); i++ {
+		if v[i] < 'A' || v[i] > 'C' {
+			return vInvalid
+		}
+	}
+	return vValid
+}
+
+// refDateHour is the reference for datetime(2006-01-02T15): a date, the letter T, an hour.
+func refDateHour(v string) tri {
+	if len(v) < 12 || len(v) > 13 {
+		return vInvalid
+	}
+	d := refDate(v[:10])
+	if d == vInvalid || v[10] != 'T' || !allDigits(v[11:]) {
+		return vInvalid // a 't' is not the 'T' the layout spells
+	}
+	if len(v) == 12 {
+		return vUnspec // one-digit hour
+	}
+	if h, _ := strconv.Atoi(v[11:]); h > 23 {
+		return vInvalid
+	}
+	return d
+}
+
 func refCustom(ok func(string) bool) func(string) tri {
 	return func(v string) tri {
 		if ok(v) {
@@ -287,6 +340,12 @@ var consCatalogue = []consDef{
 	{"regex", `regex(^[a-c]+$)`, refRegexAC, nil, []string{"abc", "abd", "A", "a7", "cab"}},
 	{"odd", "odd", refCustom(func(v string) bool { return oddConstraint{}.Execute(v) }), nil, []string{"7", "12", "a", "-7", "77"}},
 	{"mult", "mult(3)", refCustom(func(v string) bool { return multConstraint{}.Execute(v, "3") }), nil, []string{"12", "7", "a", "9", "3a"}},
+	// constraint spellings that hold capital letters (the pattern text is case-folded for routing when
+	// CaseSensitive is off; what a constraint means must not change with it)
+	{"custom-with-capital-in-name", "isOdd", refCustom(func(v string) bool { return isOddConstraint{}.Execute(v) }), nil, []string{"7", "12", "a", "-7", "77"}},
+	{"custom-with-capital-in-argument", "in(Ab,b7)", refCustom(func(v string) bool { return inConstraint{}.Execute(v, "Ab", "b7") }), nil, []string{"Ab", "ab", "AB", "b7", "B7", "a", "Abb7"}},
+	{"regex-with-capital-class", `regex(^[A-C]+$)`, refRegexUpper, []string{"B"}, []string{"ABC", "abc", "A", "a", "Ab", "A7", "CAB"}},
+	{"datetime-with-letter-in-layout", `datetime(2006\-01\-02T15)`, refDateHour, []string{"2024-02-29T10", "2024-02-29t10"}, []string{"2024-02-29T10", "2024-02-29t10", "2023-02-29T10", "2024-02-29T24", "2024-02-29T7", "2024-02-29", "2024-02-29T10a"}},
 }
 
 func consByName(n string) consDef {
@@ -303,6 +362,9 @@ var consSets = [][]string{
 	{"int"}, {"bool"}, {"float"}, {"alpha"}, {"guid"}, {"minLen"}, {"maxLen"}, {"len"}, {"betweenLen"},
 	{"min"}, {"max"}, {"range"}, {"datetime"}, {"regex"}, {"odd"}, {"mult"},
 	{"int", "min"}, {"alpha", "len"}, {"minLen", "maxLen"}, {"min", "odd"}, {"regex", "maxLen"}, {"len", "mult"},
+	{"custom-with-capital-in-name"}, {"custom-with-capital-in-argument"}, {"regex-with-capital-class"}, {"datetime-with-letter-in-layout"},
+	// three constraints: "7" fails only the first, "12" only the second, "1277" only the third
+	{"minLen", "odd", "maxLen"},
 }
 
 // ---------------------------------------------------------------------------
